@@ -57,6 +57,14 @@ Load(g) ==
 \* the caller creates an input object
 NewInput(t) == heap' = Alloc(heap, t, "caller") /\ UNCHANGED <<model, params, runs, hist>>
 
+\* the caller refills a tensor it owns (same element type and shape, other contents) while no Run is using it
+CallerWrite(o, t) ==
+   /\ o \in 1..Len(heap) /\ heap[o].owner = "caller"
+   /\ \A r \in RunIds : runs[r].st # "running" \/ \A n \in DOMAIN runs[r].ins : runs[r].ins[n] # o
+   /\ t.dt = heap[o].t.dt /\ t.shape = heap[o].t.shape
+   /\ heap' = [heap EXCEPT ![o].t = t]
+   /\ UNCHANGED <<model, params, runs, hist>>
+
 \* RunBegin: validateShapes, then the per-Run environment (a new map; the tensors in it are shared references)
 RunBegin(r, ins) ==        \* ins : name -> ObjId of caller objects
    /\ model.loaded /\ runs[r].st = "idle"
